@@ -34,3 +34,32 @@ for _f in ('MakeSkipped', 'MakeRepeated'):
 
 # TimeLocal: remember what the inner MakeTime returned (ghost), so that the postcondition can relate the result to it
 HOOKS['TimeLocal'] = [(r'time_zone :: civil_lookup cl = MakeTime', 'gz_mt = cl;', 'after')]
+
+# ---- NextTransition -------------------------------------------------------------------------------------------------------------------
+IDX = "((size_t)__CPROVER_POINTER_OFFSET(tr) / sizeof(Transition))"
+GHOST['NextTransition'] = {1: "const size_t g_k0 = (size_t)(tr - &self->transitions_.data[0]);\nconst size_t g_s = (size_t)(begin - &self->transitions_.data[0]);"}
+LOOPS['NextTransition'] = {
+    1: """__CPROVER_assigns(tr)
+__CPROVER_loop_invariant(__CPROVER_same_object(tr, end) && __CPROVER_POINTER_OFFSET(begin) <= __CPROVER_POINTER_OFFSET(tr) && __CPROVER_POINTER_OFFSET(tr) <= __CPROVER_POINTER_OFFSET(end))
+__CPROVER_loop_invariant((size_t)__CPROVER_POINTER_OFFSET(tr) %% sizeof(Transition) == 0 && g_k0 <= %(IDX)s && g_s == NS(self))
+__CPROVER_loop_invariant((g_k0 <= gz_k && gz_k < %(IDX)s) ==> EQ_AT(self, gz_k))
+__CPROVER_decreases(__CPROVER_POINTER_OFFSET(end) - __CPROVER_POINTER_OFFSET(tr))""" % dict(IDX=IDX),
+}
+HOOKS['NextTransition'] = [
+    (r'trans -> from = tr -> prev_civil_sec \+ 1', '__CPROVER_assume((size_t)(tr - &self->transitions_.data[0]) == gz_r);   /* prophecy: gz_r is the reported row */\n' +
+     'USE(lemma_epoch_REQ(), lemma_epoch_ENS(), "epoch");\n' + use('secrepr', ['OSEC(TR(self, gz_r).prev_civil_sec) + 1'])),
+]
+
+# ---- PrevTransition -------------------------------------------------------------------------------------------------------------------
+GHOST['PrevTransition'] = {1: "const size_t g_l0 = (size_t)(tr - &self->transitions_.data[0]);"}
+LOOPS['PrevTransition'] = {
+    1: """__CPROVER_assigns(tr)
+__CPROVER_loop_invariant(__CPROVER_same_object(tr, end) && __CPROVER_POINTER_OFFSET(begin) <= __CPROVER_POINTER_OFFSET(tr) && __CPROVER_POINTER_OFFSET(tr) <= __CPROVER_POINTER_OFFSET(end))
+__CPROVER_loop_invariant((size_t)__CPROVER_POINTER_OFFSET(tr) %% sizeof(Transition) == 0 && %(IDX)s <= g_l0)
+__CPROVER_loop_invariant((%(IDX)s <= gz_k && gz_k < g_l0) ==> EQ_AT(self, gz_k))
+__CPROVER_decreases(__CPROVER_POINTER_OFFSET(tr) - __CPROVER_POINTER_OFFSET(begin))""" % dict(IDX=IDX),
+}
+HOOKS['PrevTransition'] = [
+    (r'trans -> from = \( -- tr \) -> prev_civil_sec \+ 1', '__CPROVER_assume((size_t)(tr - &self->transitions_.data[0]) - 1 == gz_r);   /* prophecy: gz_r is the reported row */\n' +
+     'USE(lemma_epoch_REQ(), lemma_epoch_ENS(), "epoch");\n' + use('secrepr', ['OSEC(TR(self, gz_r).prev_civil_sec) + 1'])),
+]
